@@ -36,6 +36,13 @@ POS_FACTOR = 16.0   # differences of reduced positions stay within POS_FACTOR*EP
 a = np.array
 
 
+def _rot(axis, ang):
+    axis = np.array(axis, dtype=float)
+    axis /= np.linalg.norm(axis)
+    K = np.array([[0, -axis[2], axis[1]], [axis[2], 0, -axis[0]], [-axis[1], axis[0], 0]])
+    return np.eye(3) + np.sin(ang) * K + (1 - np.cos(ang)) * np.dot(K, K)
+
+
 def primitives():
     s3 = np.sqrt(0.75)
     return {
@@ -49,6 +56,12 @@ def primitives():
         'honeycomb': (a([[1., 0.5], [0., s3]]), [[a([1. / 3, 1. / 3]), a([2. / 3, 2. / 3])]]),
         'rect-ab': (a([[1., 0.], [0., 1.25]]), [[np.zeros(2)], [a([0.5, 0.3])]]),
         'tetra-ab': (np.diag([1., 1., 1.5]), [[np.zeros(3)], [a([0.5, 0.5, 0.8])]]),
+        # hexagonal cell in the 120-degree setting, in a rotated Cartesian frame: the ratio a1.a2/a1.a1 is -1/2 up to roundoff
+        'hcp120-rot': (np.dot(_rot([-0.2414100744170262, -0.17943509829847798, -1.0584963489673935], 0.1227923854335301),
+                              a([[1., -0.5, 0.], [0., s3, 0.], [0., 0., 1.633]])), [[a([1. / 3, 2. / 3, 0.25]), a([2. / 3, 1. / 3, 0.75])]]),
+        # an atom ON the cell origin: noisy images of it straddle a cell face (coordinates 1-eps and 0+eps')
+        'hcp-o': (a([[0.5, 0.5, 0.], [-s3, s3, 0.], [0., 0., np.sqrt(8. / 3.)]]), [[a([0., 0., 0.]), a([1. / 3, 2. / 3, 0.5])]]),
+        'honeycomb-o': (a([[1., 0.5], [0., s3]]), [[a([0., 0.]), a([1. / 3, 1. / 3])]]),
         'mono-c1': (a([[1., 0., 0.25], [0., 1.25, 0.], [0., 0., 1.5]]), [[a([0.1, 0.2, 0.3])], [a([0.6, 0.15, 0.55])]]),
     }
 
@@ -67,9 +80,10 @@ SUPERS2 = {
 }
 
 
-def description(pname, sname, order, src):
+def description(pname, sname, order, src, eps=None):
     """supercell description of a primitive crystal: lattice A.S, every atom of the primitive cell at all its images inside the
     supercell, in a shuffled order (order = seed; 0 keeps the construction order), each coordinate with its own noise term"""
+    eps = EPS if eps is None else eps
     latt, basis = primitives()[pname]
     dim = latt.shape[0]
     S = (SUPERS3 if dim == 3 else SUPERS2)[sname]
@@ -93,7 +107,7 @@ def description(pname, sname, order, src):
             random.Random(1000 * order + len(out)).shuffle(lst)
         noisy = []
         for u in lst:
-            d = src.reals('n%d' % k, dim, -EPS, EPS)
+            d = src.reals('n%d' % k, dim, -eps, eps)
             k += 1
             noisy.append(np.array([ui + di for ui, di in zip(u, d)], dtype=object) if src.symbolic else u + np.asarray(d, dtype=float))
         out.append(noisy)
@@ -103,12 +117,16 @@ def description(pname, sname, order, src):
 _REF = {}
 
 
-def reference(pname, sname, order):
+def reference(pname, sname, order, thr=None):
     """the same description without noise through the plain constructor, and the primitive crystal itself"""
-    key = (pname, sname, order)
+    key = (pname, sname, order, thr)
+    kw = {} if thr is None else {'threshold': thr}
     if key not in _REF:
         latt, basis = primitives()[pname]
-        prim = crystal.Crystal(latt, [[u.copy() for u in l] for l in basis])
+        try:
+            prim = crystal.Crystal(latt, [[u.copy() for u in l] for l in basis], **kw)
+        except (ArithmeticError, RecursionError):
+            prim = None
 
         class Z:   # zero noise source
             symbolic = False
@@ -117,39 +135,43 @@ def reference(pname, sname, order):
                 return np.zeros(n)
         sl, sb, nd = description(pname, sname, order, Z())
         try:
-            ref = crystal.Crystal(sl, sb)
-        except ArithmeticError:      # the constructor's own consistency check: reported as a failed obligation below
+            ref = crystal.Crystal(sl, sb, **kw)
+        except (ArithmeticError, RecursionError):      # the constructor's own failure: reported as a failed obligation below
             ref = None
         _REF[key] = (prim, ref, nd)
     return _REF[key]
 
 
-def recover(pname, sname, order):
+def recover(pname, sname, order, thr=None):
+    """thr: the constructor's threshold (None = default 1e-8); the noise bound is thr/16.  A large threshold (1e-4) lets noisy images
+    of an atom on the origin straddle a cell face, which the fixed 1e-8 slack of incell hides at the default threshold"""
     def fn(src=None):
         src = src or Src()
-        name = 'recover:%s:%s:%d' % (pname, sname, order)
-        prim, ref, nd = reference(pname, sname, order)
-        latt, basis, nd = description(pname, sname, order, src)
-        info = src.info(replayer='recover', extra={'prim': pname, 'super': sname, 'order': order})
+        name = 'recover:%s:%s:%d%s' % (pname, sname, order, '' if thr is None else ':thr%g' % thr)
+        eps = EPS if thr is None else thr / 16.
+        kw = {} if thr is None else {'threshold': thr}
+        prim, ref, nd = reference(pname, sname, order, thr)
+        latt, basis, nd = description(pname, sname, order, src, eps)
+        info = src.info(replayer='recover', extra={'prim': pname, 'super': sname, 'order': order, 'thr': thr})
         info['soft'] = True    # noise of 1e-9 next to coordinates of order one: a float replay may round a borderline model differently
         obs = []
 
         def ob(n, v):
             obs.append(('%s:%s' % (name, n), v, dict(info, sig='recover:' + n)))
-        ob('noise-free-construction-succeeds', ref is not None)
-        if ref is None:
+        ob('noise-free-construction-succeeds', ref is not None and prim is not None)
+        if ref is None or prim is None:
             return obs
         if src.symbolic:
             ENG.concretize_unique_ints = True
             with shim.symbolic_mode():
                 try:
-                    c = crystal.Crystal(latt, basis)
+                    c = crystal.Crystal(latt, basis, **kw)
                 except ArithmeticError:
                     c = None
         else:
             try:
-                c = crystal.Crystal(latt, basis)
-            except ArithmeticError:
+                c = crystal.Crystal(latt, basis, **kw)
+            except (ArithmeticError, RecursionError):
                 c = None
         ob('construction-succeeds', c is not None)
         if c is None:
@@ -172,7 +194,7 @@ def recover(pname, sname, order):
             # same crystal as the noise-free result up to the choice of origin and an inversion of the setting: every difference
             # between two atoms (species by species and across species) is, mod 1 and within a small multiple of the noise, a
             # difference of the noise-free result; or all of them are the negative of one
-            tol = POS_FACTOR * EPS * nd
+            tol = POS_FACTOR * eps * nd
 
             def diffs(basis_):
                 out = {}
@@ -201,7 +223,7 @@ def recover(pname, sname, order):
             ob('atom-differences-equal-noise-free-result-up-to-inversion', core.Or(*both) if src.symbolic else any(both))
         if src.symbolic:
             # reachability witness: a false claim about the noise that must come back violated on this path
-            obs.append(('twin:%s' % name, src.inputs[sorted(src.inputs)[0]] <= EPS / 2))
+            obs.append(('twin:%s' % name, src.inputs[sorted(src.inputs)[0]] <= eps / 2))
         return obs
     return fn
 
@@ -209,10 +231,17 @@ def recover(pname, sname, order):
 # (primitive, supercell, ordering)
 QUICK = [('fcc', 'conv4', 0), ('fcc', 'd211', 1), ('bcc', 'conv2', 0), ('sc', 'r2', 1), ('sc', 'd311', 0), ('hcp', 'd211', 1), ('hcp', 'r2', 0),
          ('b2', 'd221', 1), ('b2', 't3', 0), ('square', 'r2', 0), ('square', 'k5', 1), ('square', 't6', 0), ('honeycomb', 'd21', 1),
-         ('honeycomb', 'd31', 0), ('rect-ab', 's4', 1), ('tetra-ab', 'd122', 0), ('mono-c1', 'd211', 1), ('mono-c1', 's4', 0), ('hcp', 'h4', 0)]
+         ('honeycomb', 'd31', 0), ('rect-ab', 's4', 1), ('tetra-ab', 'd122', 0), ('mono-c1', 'd211', 1), ('mono-c1', 's4', 0), ('hcp', 'h4', 0), ('hcp120-rot', 'd211', 0)]
 THOROUGH = QUICK + [(p, s, o) for p in ('sc', 'fcc', 'bcc', 'hcp', 'b2', 'tetra-ab', 'mono-c1') for s in sorted(SUPERS3) for o in (0, 2)
                     if (p, s, o) not in QUICK] + \
     [(p, s, o) for p in ('square', 'honeycomb', 'rect-ab') for s in sorted(SUPERS2) for o in (0, 2) if (p, s, o) not in QUICK]
+
+
+# cases with the constructor's threshold raised to 1e-4 (noise 6.25e-6): images of an atom on the origin then straddle cell faces and every
+# sign pattern of their noise is a path of its own (2^k, k = number of face coordinates): beyond the budgets here, so the lists are
+# empty and the regime is stated as outside the claim (seed C19c lives there)
+LARGE_THR_Q = []
+LARGE_THR_T = []
 
 
 def sections(tier):
@@ -221,6 +250,9 @@ def sections(tier):
     for p, s, o in (QUICK if tier == 'quick' else THOROUGH):
         secs.append(S('recover:%s:%s:%d' % (p, s, o), recover(p, s, o), budget_s=170 if tier == 'quick' else 900, replayer='recover',
                       config='%s/%s' % (p, s), maxpaths=24, timeout_ms=20000))
+    for p, s, o in (LARGE_THR_Q if tier == 'quick' else LARGE_THR_T):
+        secs.append(S('recover:%s:%s:%d:thr0.0001' % (p, s, o), recover(p, s, o, 1e-4), budget_s=170 if tier == 'quick' else 900, replayer='recover',
+                      config='%s/%s threshold 1e-4' % (p, s), maxpaths=96, timeout_ms=20000))
     return secs
 
 
@@ -229,7 +261,7 @@ def main():
     warnings.simplefilter('ignore')
     if REPLAY:
         run.replay_main('C19', {'recover': lambda rec: harness.run_laws_concrete(
-            recover(rec['extra']['prim'], rec['extra']['super'], rec['extra']['order']), rec)})
+            recover(rec['extra']['prim'], rec['extra']['super'], rec['extra']['order'], rec['extra'].get('thr')), rec)})
     C = crystal.Crystal
     chk = run.Check(
         'C19',
